@@ -239,6 +239,15 @@ func init() {
 		fr.i.p.sched.joinAll()
 		return nil
 	}
+	I[vrtPath+"LiveGoroutines"] = func(fr *frame, args []value) value {
+		n := 0
+		for _, g := range fr.i.p.sched.gs[1:] {
+			if !g.done {
+				n++
+			}
+		}
+		return n
+	}
 	I[vrtPath+"Yield"] = func(fr *frame, args []value) value {
 		fr.i.p.sched.yield("vrt.Yield")
 		return nil
